@@ -3,7 +3,7 @@
 From GM Require Import Base.Prelude Base.Outcome Codec.Packets Codec.Settings Codec.Steps Codec.ImplEncode
   Codec.Framing Alias.Outbound Alias.Inbound Validate.Rules Engine.Model Engine.Instance
   EngineProofs.SvcTimeout EngineProofs.WFDefs EngineProofs.WFInstance
-  EngineProofs.TimersRunData EngineProofs.TimersRun EngineProofs.TimersRunThms EngineProofs.TimersRunPing EngineProofs.TimersRunRetry.
+  EngineProofs.TimersRunData EngineProofs.TimersRun EngineProofs.TimersRunThms EngineProofs.TimersRunPing EngineProofs.TimersRunRetry EngineProofs.TimersRunFire.
 Open Scope N_scope.
 
 (* the ghosts, for the instance *)
@@ -44,6 +44,14 @@ Section Instance.
     w + T <= now -> o_res (snd (i_step cfg sI (EvService now cap fill))) = Ok tt ->
     lookup i (s_ops (fst (i_step cfg sI (EvService now cap fill)))) = None.
   Proof. exact (run_timeout_fires _ _ _ enc_done _ _ _ _ _ _ _ _ _ _ _ cfg instance_comps_ok Hcfg o0 i0 h I I Hh). Qed.
+
+  Theorem instance_run_timeout_acktimeout : forall p i o T w now cap fill,
+    In (p, i) (s_ppub sI) \/ In (p, i) (s_pnon sI) -> lookup i (s_ops sI) = Some o ->
+    op_user o = true -> op_timeout o = Some T -> op_ext o = Some w -> w + T <= IMAX -> w + T <= now ->
+    ~ In i (s_hq sI) -> ~ In i (s_rq sI) -> ~ In i (s_uq sI) -> s_cur sI <> Some i ->
+    o_res (snd (i_step cfg sI (EvService now cap fill))) = Ok tt ->
+    In (i, CompErr EAckTimeout) (o_done (snd (i_step cfg sI (EvService now cap fill)))).
+  Proof. exact (run_timeout_acktimeout _ _ _ enc_done _ _ _ _ _ _ _ _ _ _ _ cfg instance_comps_ok Hcfg o0 i0 h I I Hh). Qed.
 
   Theorem instance_run_records_sound : forall i t, In (i, t) (s_tmo sI) ->
     t <= IMAX /\ exists w T, t = w + T /\ In w (epoch h) /\
